@@ -456,8 +456,22 @@ func (e *Eval) index() {
 				}
 			case *ssa.MakeInterface:
 				if isPointerLike(x.X.Type()) {
-					base, path := baseOf(x.X)
-					add(base, event{instr: ins, path: path, kind: "escape"})
+					// a pointer boxed only to be passed to calls is handled as a clobber at those calls
+					// (assumption: callees do not retain argument pointers beyond the call)
+					onlyCalls := x.Referrers() != nil && len(*x.Referrers()) > 0
+					if onlyCalls {
+						for _, ref := range *x.Referrers() {
+							if _, ok := ref.(ssa.CallInstruction); !ok {
+								if _, dbg := ref.(*ssa.DebugRef); !dbg {
+									onlyCalls = false
+								}
+							}
+						}
+					}
+					if !onlyCalls {
+						base, path := baseOf(x.X)
+						add(base, event{instr: ins, path: path, kind: "escape"})
+					}
 				}
 			case *ssa.Return:
 				// returning a pointer is not a write
@@ -548,6 +562,14 @@ func (e *Eval) mayPrecede(a, b ssa.Instruction) bool {
 		return e.reach[ba][ba]
 	}
 	return e.reach[ba][bb]
+}
+
+// MayPrecede reports whether instruction a can execute before instruction b on some path.
+func (e *Eval) MayPrecede(a, b ssa.Instruction) bool {
+	if a == nil || b == nil || a.Parent() != e.Fn || b.Parent() != e.Fn {
+		return false
+	}
+	return e.mayPrecede(a, b)
 }
 
 // dominates: instruction a dominates instruction b (a executes before b on every path to b).
@@ -840,6 +862,19 @@ func (e *Eval) SelectAddr(addr ssa.Value, path []string, at ssa.Instruction) *Te
 	return w.before(at.Block(), e.idx[at])
 }
 
+// walkFor prepares a memory walk for base.path.
+func (e *Eval) walkFor(base ssa.Value, full []string) *memWalk {
+	w := &memWalk{e: e, base: base, full: full, memo: map[*ssa.BasicBlock]*Term{}, byInstr: map[ssa.Instruction]*event{}}
+	for j := range e.events[base] {
+		ev := &e.events[base][j]
+		if ev.kind != "escape" && overlap(ev.path, full) {
+			w.byInstr[ev.instr] = ev
+			w.n++
+		}
+	}
+	return w
+}
+
 type memWalk struct {
 	e       *Eval
 	base    ssa.Value
@@ -888,6 +923,17 @@ func (w *memWalk) before(b *ssa.BasicBlock, i int) *Term {
 			}
 			return mk("opaque", "copy")
 		case "clobber":
+			if hasPrefix(w.full, ev.path) && len(ev.path) < len(w.full) {
+				// the call received the enclosing object: after(callee; object).rest
+				outer := w.e.walkFor(w.base, ev.path)
+				var inner *Term
+				if outer.n == 0 {
+					inner = outer.initial(b.Instrs[k])
+				} else {
+					inner = outer.before(b, k)
+				}
+				return mk("after", ev.who, inner).Field(w.full[len(ev.path):]...)
+			}
 			return mk("after", ev.who, w.before(b, k))
 		}
 	}
